@@ -321,6 +321,10 @@ def _check_case(case, res):
         f_impl = m.run()
         machines[dbg] = (m, d)
         fails_by_mode[dbg] = f_impl
+        want_jet = case.tags.get("jet") if isinstance(case.tags, dict) else None
+        if want_jet and not case.expect_reject and want_jet not in [j for j, _, _ in m.jet_inputs]:
+            return {"status": "violation", "kind": "jet-missing",
+                    "detail": "the call of jet::%s is not part of the emitted program (no execution path reaches a `%s` jet node)" % (want_jet, want_jet)}
         res["nodes"] = max(res["nodes"], len(d["nodes"]))
         res["evals"] += m.evals
         res["witness_bits"] = sum(i["w"] for i in d.get("witness", {}).values())
